@@ -320,6 +320,6 @@ def replay(v):
 
 MANIFEST_ENTRY = {
     "level_text": "Bounded symbolic execution of the real RegionGeomToO.__call__/throw/generate_times/get_beta_angle/get_path_length/event_mask with the source altitude at each of N=2 (quick) / 3 (thorough) instants, the detector altitude, the angle from the limb, start time and duration symbolic: nlsat proves the instants are t0 + T i/N, that an instant is kept exactly when the source is occulted and its emergence angle is below min(42 deg, limb limit), the two triangle relations and cos(beta) = (r/R) sin(alpha) for the kept path length, and the alignment of the returned (beta, alpha, L, times) for every horizon/volume keep pattern; the real ToOEvent.sun_moon_cut is proved equal to the documented Boolean condition and monotone in each threshold.",
-    "level_note": "REAL arithmetic with algebraised trigonometry; astropy coordinate transforms / ephemerides are stubbed by free symbols per instant (their correctness is outside the claim); that the cut applies to optical only and on the kept times is established in C03.",
+    "level_note": "The ephemeris stubs are functions of the time they are asked for (a cut evaluated at one representative time is a counterexample). NOT covered: the IEEE length of a float-step np.arange for N >= 49 (REAL mode, N <= 3). REAL arithmetic with algebraised trigonometry; astropy coordinate transforms / ephemerides are stubbed by free symbols per instant (their correctness is outside the claim); that the cut applies to optical only and on the kept times is established in C03.",
     "technique": "symbolic execution of the real NumPy source (DFS over keep patterns) + z3 qfnra-nlsat with algebraised trigonometry",
 }
